@@ -19,7 +19,7 @@
    GReq = whitespace required, GNo = whitespace forbidden, GFree = no requirement.
 
    `known` lists the narrow decidable classes of inputs on which the code is known to deviate
-   (known_findings.json: D15 D24 D25 D26 D27 D28); `wf_tree` is "well-formed stylesheet". *)
+   (known_findings.json: D15 D24 D27 D28); `wf_tree` is "well-formed stylesheet". *)
 From GE Require Export Model.Css.
 Open Scope N_scope.
 
@@ -160,8 +160,10 @@ Fixpoint sel_list (conv : bool) (l : list node) (first ws cmt in_class : bool)
                  else if ws then GReq else if cmt || is_numeric t then GFree else GNo in
         (match n with
          | Block open _ _ _ _ =>
-             (* a math function is a value wherever it occurs (e.g. inside a media feature) *)
-             [mke g open] ++ (if is_math_fn open then val_node o n true else rec n)
+             (* a math function nested in a block is a value (e.g. inside a media feature); at the
+                top level of a qualified-rule prelude (conv = false) every function is a selector
+                function *)
+             [mke g open] ++ (if conv && is_math_fn open then val_node o n true else rec n)
              ++ [mke GFree (close_of open)]
          | Leaf (TIdent s) _ =>
              if in_class then
@@ -223,12 +225,18 @@ Fixpoint at_prelude_spec (o : opts) (l : list node) : list etok :=
 (* ---- :host ---- *)
 Inductive host_kind := HostNone | HostPure | HostCombined.
 
+(* `:host` = a colon directly followed by the identifier / function `host`; comments do not
+   separate tokens, whitespace does (`: host` is not a pseudo-class) *)
 Definition host_kind_of (prelude : list node) : host_kind :=
   match skip_ws prelude with
-  | Leaf TColon _ :: Leaf (TIdent s) _ :: rest =>
-      if str_eqb s s_host then (if all_ws rest then HostPure else HostCombined) else HostNone
-  | Leaf TColon _ :: Block (TFunc s) _ _ _ _ :: _ =>
-      if str_eqb s s_host then HostCombined else HostNone
+  | Leaf TColon _ :: after =>
+      match skip_comments after with
+      | Leaf (TIdent s) _ :: rest =>
+          if str_eqb s s_host then (if all_ws rest then HostPure else HostCombined) else HostNone
+      | Block (TFunc s) _ _ _ _ :: _ =>
+          if str_eqb s s_host then HostCombined else HostNone
+      | _ => HostNone
+      end
   | _ => HostNone
   end.
 
@@ -433,19 +441,6 @@ Fixpoint conforms (out : list tok) (exp : list etok) {struct exp} : bool :=
 
 (* ---------------------------------------------------------------- known deviation classes *)
 
-Definition has_class_opts (o : opts) : bool :=
-  match class_prefix o, class_prefix_sign o with None, None => false | _, _ => true end.
-
-(* a node list contains (at any depth) an inner whitespace token or a `.` delim *)
-Fixpoint has_ws_or_dot (n : node) : bool :=
-  match n with
-  | Leaf t _ => is_ws t || (match t with TDelim c => c =? 46 | _ => false end)
-  | Block _ _ body _ _ =>
-      (fix go (l : list node) : bool :=
-         match l with [] => false | x :: r => has_ws_or_dot x || go r end) body
-  end.
-
-
 (* D15: unicode-range *)
 Section K15.
 Variable rec : node -> bool.
@@ -522,63 +517,18 @@ Fixpoint k24_node (n : node) : bool :=
 
 (* whole-sheet scan for the rule-level classes; returns the list of class ids that apply *)
 Definition K15 : N := 15.  Definition K24 : N := 24.
-Definition K25 : N := 25.  Definition K26 : N := 26.  Definition K27 : N := 27.  Definition K28 : N := 28.
+Definition K27 : N := 27.  Definition K28 : N := 28.
 
 Definition flag (b : bool) (k : N) : list N := if b then [k] else [].
 
-(* import layer(a.b): the layer name goes through the class-name converter *)
-Fixpoint import_layer_dot (l : list node) : bool :=
-  match l with
-  | [] => false
-  | n :: r =>
-      (match n with
-       | Block (TFunc x) _ body _ _ => str_eqb x s_layer && existsb has_ws_or_dot body
-       | _ => false
-       end) || import_layer_dot r
-  end.
-
-Definition body_of (n : node) : list node :=
-  match n with Block _ _ b _ _ => b | Leaf _ _ => [] end.
-
-Fixpoint known_rules (fuel : nat) (o : opts) (l : list node) : list N :=
-  match fuel with
-  | O => []
-  | S f =>
-      match skip_ws l with
-      | [] => []
-      | Leaf (TAt x) _ :: r =>
-          let '(prelude, term, rest) := take_prelude true r in
-          let this :=
-            match (if str_eqb x s_import then import_sign o else None) with
-            | Some _ => flag (has_class_opts o && import_layer_dot prelude) K25
-            | None =>
-                match term with
-                | Some (Block _ _ body _ _) => if ideal_contain x then known_rules f o body else []
-                | _ => []
-                end
-            end in
-          this ++ known_rules f o rest
-      | l0 =>
-          let '(prelude, term, rest) := take_prelude false l0 in
-          (* `: host` written with whitespace/comment after the colon is accepted by the code *)
-          flag (convert_host o &&
-                match skip_ws prelude with
-                | Leaf TColon _ :: n2 :: _ => is_ws_or_comment (node_tok n2)
-                | _ => false
-                end) K26
-          ++ known_rules f o rest
-      end
-  end.
-
-(* class ids that apply to a sheet (without repetition): 15, 24, 27, 28 are properties of the token
-   tree alone, 25 and 26 depend on the rule structure.  The former classes 13, 14, 17, 23 (and 22
-   of the source maps) were repaired in the code (fix: commits) and no longer exist: such sheets
-   are checked against the specification like any other. *)
+(* class ids that apply to a sheet (without repetition).  All remaining classes (15, 24, 27, 28) are
+   properties of the token tree alone and all of them are limits of cssparser's serializer.  The
+   former classes 13, 14, 17, 23, 25, 26 (and 22 of the source maps) were repaired in the code
+   (fix: commits) and no longer exist: such sheets are checked like any other. *)
 Definition known (o : opts) (tree : list node) : list N :=
   nodup N.eq_dec
-    (flag (k15_list tree) K15
-     ++ flag (existsb k24_node tree) K24 ++ flag (k27_list tree) K27 ++ flag (k28_list tree) K28
-     ++ known_rules (S (nodes_size tree)) o tree).
+    (flag (k15_list tree) K15 ++ flag (existsb k24_node tree) K24 ++ flag (k27_list tree) K27
+     ++ flag (k28_list tree) K28).
 
 Definition wf_tree (o : opts) (tree : list node) : bool :=
   wf_nodes true tree && so_complete (expected o tree).
